@@ -95,8 +95,16 @@ def static_hazard(rng):
     """class-level initialisation orders that an interpreter can get fatally wrong: a generic class whose static creates its own
     specialisation, two generic classes whose statics create each other, statics reading statics of classes declared later, static and
     field initialisers that fail at run time (the failure must be a located diagnostic)"""
-    k = rng.randrange(10)
+    k = rng.randrange(13)
     t = rng.choice(["int", "string", "Item", "float"])
+    if k >= 10:
+        # array fields without a size, sized by a named constant, sized zero: objects of such classes are created, used, dropped
+        elem = rng.choice(["qubit", "int", "bit", "string", "float"])
+        size = ["", "W", "0"][k - 10]
+        use = "" if elem == "qubit" else " echo(h.f);"
+        return ("class Holder { public static final int W = %d; public %s[%s] f; public int n = 1; public constructor() -> Holder = default; }\n"
+                "function main() -> void { Holder h = new Holder(); echo(h.n);%s { Holder g = new Holder(); echo(g.n + 1); } Holder[] hs = {new Holder(), h}; echo(hs[0].n); }"
+                % (rng.randrange(1, 4), elem, size, use))
     if k >= 8:
         # a destructor that leaks `this` (into a static, another object's field, an array): the alias must never dangle
         where = ["Keep.last = this;", "Keep.box.held = this;"][k - 8]
